@@ -303,7 +303,14 @@ def gen_history(rng, nmax=6, with_regen=False, ninv=None, with_pools=False):
                 elif c < 0.85:
                     # edit the manifest: change a step's tag (command text) or add/remove an order-only edge
                     b = rng.choice(info["builds"])
-                    if info.get("pools") and rng.random() < 0.4:
+                    if with_pools and rng.random() < 0.25:
+                        # a pool that only the edited (possibly regenerated) manifest declares; a step moves into it and is made dirty
+                        pn = "np%d" % len(info["pools"])
+                        info["pools"].append([pn, rng.choice([1, 2])])
+                        for bb in rng.sample(info["builds"], min(len(info["builds"]), rng.randint(1, 2))):
+                            bb["pool"] = pn
+                            bb["tag"] = "t%d" % rng.randint(100, 999)
+                    elif info.get("pools") and rng.random() < 0.4:
                         pl = rng.choice(info["pools"])
                         pl[1] = rng.choice([d for d in (1, 2, 3) if d != pl[1]])
                         # make the pool's members dirty so that the new depth matters in this very invocation
